@@ -35,7 +35,7 @@ thread_local! {
 pub fn signature(vm_type_failure: bool) -> String {
     let ev = LAST_EVENTS.with(|e| e.borrow().clone());
     let base = if vm_type_failure { "vm-type-failure" } else { "result-differs" };
-    match EVENT_ORDER.iter().find(|k| ev.contains(k) && (!matches!(**k, "tail-call" | "star-pattern") || vm_type_failure)) {
+    match EVENT_ORDER.iter().find(|k| ev.contains(k) && (**k != "star-pattern" || vm_type_failure)) {
         Some(k) => format!("{base}:{k}"),
         None => base.to_string(),
     }
